@@ -71,11 +71,14 @@ def coq_stmts(stmts):
 
 
 # ------------------------------------------------------------------ implementation side
-def observe_tables(p):
+def observe_tables(p, only=None):
     """every table held after parse(), in order: [mother, [[bf, fs, model(+PHOTOS), params], ...]]"""
     from vlib import fl
     out = []
-    for tree in p._parsed_decays:
+    for ti, tree in enumerate(p._parsed_decays):
+        if only is not None and ti not in only:
+            out.append(None)
+            continue
         m = tree.children[0].children[0].value
         lines = []
         for dm in tree.find_data("decayline"):
